@@ -35,10 +35,6 @@ Definition only_fee (payer : bytes) (before : state) (r : result) : Prop :=
   r_events r = N.of_nat (length (fee_events (r_gas r))) /\
   fee_moved payer (r_gas r) (abs_block before) (abs_block (r_state r)).
 
-(** the no-wrap hypotheses *)
-Definition no_wrap (tx : txp) : Prop :=
-  FEE_MIN_TRANSACTION_GAS * t_price tx < two64 /\ t_limit tx * t_price tx < two64.
-
 (** every recorded transaction cache is a MemDB: key-sorted *)
 Definition interp_sorted (ip : interp) : Prop :=
   forall s g o, ip s g = Some o -> sortedb (o_cache o) = true.
@@ -71,9 +67,3 @@ Definition success_commits (tx : txp) (before : state) (o : outcome) (r : result
 (** sc.Gas only decreases (CheckUseGas is its only writer) *)
 Definition interp_gas_ok (ip : interp) : Prop :=
   forall s g o, ip s g = Some o -> o_left o <= g.
-
-(** the three products of the pre-checks do not wrap *)
-Definition no_wrap3 (codegas : N) (tx : txp) : Prop :=
-  FEE_MIN_TRANSACTION_GAS * t_price tx < two64 /\
-  t_limit tx * t_price tx < two64 /\
-  code_len_gas (t_codelen tx) codegas * t_price tx < two64.
